@@ -2,6 +2,9 @@
 //! from callback scripts (finalizers, cleaning actions, new_cyclic closures), by the same interpreter.
 
 pub const NT: usize = 2; // traced Cc slots per node
+/// traced slots in the model: the NT ordinary ones plus one slot (index NT) that lives in a ManuallyDrop field: traced by its
+/// owner, never released by the owner's drop glue (the crate implements Trace for ManuallyDrop<T>)
+pub const NTM: usize = NT + 1;
 pub const NH: usize = 1; // hidden (untraced) Cc slots per node
 pub const NW: usize = 2; // Weak slots per node
 pub const NR: usize = 5; // program registers (locals)
